@@ -96,7 +96,7 @@ func VerifC18_M2(v *VerifV) {
 		id = types.BlockID{}
 	}
 	ch := byte(StateChannel)
-	switch v.Choice("kind", 6) {
+	switch v.Choice("kind", 7) {
 	case 0:
 		step := cstypes.RoundStepType(v.U8("step"))
 		verifIncoming = &NewRoundStepMessage{Height: height, Round: round, Step: step, SecondsSinceStartTime: uint64(v.U8("secs")), LastCommitRound: v.U32("lcr")}
@@ -134,6 +134,13 @@ func VerifC18_M2(v *VerifV) {
 		}
 		verifIncoming = &NewValidBlockMessage{Height: height, Round: round, BlockPartsHeader: id.PartsHeader, BlockParts: bits, IsCommit: v.Bool("is-commit")}
 		v.Cover("new-valid-block")
+	case 6:
+		ch = DataChannel
+		pid := id
+		pid.PartsHeader.Total = v.U32("announced-parts")
+		verifIncoming = &ProposalMessage{Proposal: &types.Proposal{Height: height, Round: round, POLRound: 0,
+			POLBlockID: pid, Timestamp: types.VerifTS(), Signature: make([]byte, 65)}}
+		v.Cover("proposal")
 	}
 	verifPeerStopped = false
 	wasValid := verifIncoming.ValidateBasic() == nil
